@@ -100,6 +100,8 @@ class Frag:
         if isinstance(st, ast.Raise):
             return 'Exc "%s"' % self.exc(st)
         if isinstance(st, ast.Assert):
+            if getattr(self, "drop_asserts", False):      # python -O: the statement is not compiled at all
+                return nxt()
             return '(if %s then %s else Exc "AssertionError")' % (self.test(st.test), nxt())
         if isinstance(st, ast.If):
             c = self.test(st.test)
@@ -285,11 +287,19 @@ def gen_ev1(mod, out):
     if not (len(i_cert) == 1 and len(i_assert) == 1 and len(i_store) == 1 and i_cert[0] < i_assert[0] < i_store[0] < len(seg) - 1):
         raise U("evaluateNegotiationVersion1: expected certificate test, assert, `self.theirTubRef = ..`, client test in that order")
     text = fr.block(seg, done)
+    fr2 = Frag(env, patterns)
+    fr2.drop_asserts = True
+    fr, fr_keep = fr2, fr
+    text2 = fr2.block(seg, done)
+    fr = fr_keep
     out.append("Section Ev1.\nVariable cert : Type.\nVariable tubid_of : cert -> list Z.\n\n"
                "(* evaluateNegotiationVersion1, identity checks: result = the tub id stored in self.theirTubRef *)\n"
                "Definition ev1_identity (isClient : bool) (target : list Z) (theirCertificate : option cert)\n"
+               "   (theirTubID : option (list Z)) : res (option (list Z)) :=\n %s.\n\n"
+               "(* the same statements as python -O runs them: `assert` statements are not executed *)\n"
+               "Definition ev1_identity_noassert (isClient : bool) (target : list Z) (theirCertificate : option cert)\n"
                "   (theirTubID : option (list Z)) : res (option (list Z)) :=\n %s.\nEnd Ev1."
-               % text)
+               % (text, text2))
     # where the certificate comes from: handleENCRYPTED
     hef = P.find_def(mod, "Negotiation.handleENCRYPTED")
     he = un(hef)
@@ -763,9 +773,392 @@ def gen_getref(out):
         raise U("Broker.remote_getReferenceByName changed")
 
 
+# ------------------------------------------------------------------ plaintext guards, statement by statement
+def blit(b):
+    return "[" + "; ".join(str(x) for x in b) + "]"
+
+
+class BG:
+    """handlePLAINTEXTServer / handlePLAINTEXTClient -> one Gallina term each.  Kinds: bytes, blist (list of bytes), str (decoded
+    text, code points), bool.  Everything that can raise is translated into a match whose failing arm is `Exc "<class>"`:
+    list index (IndexError), tuple unpacking (ValueError), six.ensure_str on bytes (UnicodeDecodeError: `decode` is a
+    parameter of the generated term), raise.  Unknown statement / expression -> Untranslatable."""
+
+    def __init__(self, consts, final):
+        self.env = {"header": ("header", "bytes")}
+        self.consts = consts
+        self.final = final          # callback(self, stmts) -> text or None: recognises the tail of the method
+        self.n = 0
+
+    def fresh(self, base):
+        self.n += 1
+        return "%s_%d" % (base, self.n)
+
+    def cbytes(self, e):
+        if isinstance(e, ast.Constant) and isinstance(e.value, bytes):
+            return e.value
+        if isinstance(e, ast.Name) and e.id not in self.env and isinstance(self.consts.get(e.id), bytes):
+            return self.consts[e.id]
+        return None
+
+    def cint(self, e):
+        if isinstance(e, ast.Constant) and isinstance(e.value, int) and not isinstance(e.value, bool):
+            return e.value
+        if isinstance(e, ast.Call) and un(e.func) == "len" and len(e.args) == 1 and self.cbytes(e.args[0]) is not None:
+            return len(self.cbytes(e.args[0]))
+        if isinstance(e, ast.Name) and e.id not in self.env and type(self.consts.get(e.id)) is int:
+            return self.consts[e.id]
+        return None
+
+    def expr(self, e, k):
+        """k(term, kind) -> text"""
+        if isinstance(e, ast.Name) and e.id in self.env:
+            return k(*self.env[e.id])
+        b = self.cbytes(e)
+        if b is not None:
+            return k(blit(b), "bytes")
+        if isinstance(e, ast.Constant) and isinstance(e.value, bool):
+            return k("true" if e.value else "false", "bool")
+        if isinstance(e, ast.Constant) and isinstance(e.value, str):
+            return k(blit([ord(c) for c in e.value]), "str")
+        if isinstance(e, ast.Call) and not e.keywords:
+            f = e.func
+            if isinstance(f, ast.Attribute) and f.attr == "split":
+                if len(e.args) == 1 and self.cbytes(e.args[0]):
+                    sep = self.cbytes(e.args[0])
+                    return self.expr(f.value, lambda t, kd: k("(bsplit %s %s)" % (blit(sep), t), "blist") if kd == "bytes" else self.bad(e))
+                if not e.args:
+                    return self.expr(f.value, lambda t, kd: k("(bsplit_ws %s)" % t, "blist") if kd == "bytes" else self.bad(e))
+            if isinstance(f, ast.Attribute) and f.attr == "startswith" and len(e.args) == 1:
+                return self.expr(f.value, lambda t, kd: self.expr(e.args[0], lambda a, ka: k("(prefixb %s %s)" % (a, t), "bool")
+                                                                 if (kd, ka) == ("bytes", "bytes") else self.bad(e)))
+            if un(f) in ("isSubstring", "util.isSubstring") and len(e.args) == 2:
+                return self.expr(e.args[0], lambda a, ka: self.expr(e.args[1], lambda t, kd: k("(bsub %s %s)" % (a, t), "bool")
+                                                                   if (kd, ka) == ("bytes", "bytes") else self.bad(e)))
+            if un(f) == "six.ensure_str" and len(e.args) == 1:
+                def dec(t, kd):
+                    if kd == "str":
+                        return k(t, "str")
+                    if kd != "bytes":
+                        return self.bad(e)
+                    v = self.fresh("s")
+                    return "(match decode %s with None => Exc \"UnicodeDecodeError\" | Some %s => %s end)" % (t, v, k(v, "str"))
+                return self.expr(e.args[0], dec)
+        if isinstance(e, ast.Subscript):
+            sl = e.slice
+            if isinstance(sl, ast.Slice) and sl.upper is None and sl.step is None and sl.lower is not None and (self.cint(sl.lower) or 0) >= 0 \
+                    and self.cint(sl.lower) is not None:
+                n = self.cint(sl.lower)
+                return self.expr(e.value, lambda t, kd: k("(skipn %d%%nat %s)" % (n, t), "bytes") if kd == "bytes" else self.bad(e))
+            n = self.cint(sl)
+            if n is not None and n >= 0:
+                def idx(t, kd):
+                    if kd != "blist":
+                        return self.bad(e)
+                    v = self.fresh("x")
+                    return "(match nth_error %s %d%%nat with None => Exc \"IndexError\" | Some %s => %s end)" % (t, n, v, k(v, "bytes"))
+                return self.expr(e.value, idx)
+        if isinstance(e, ast.Compare) and len(e.ops) == 1 and isinstance(e.ops[0], (ast.Eq, ast.NotEq)):
+            neg_ = isinstance(e.ops[0], ast.NotEq)
+
+            def cmp_(a, ka):
+                def cmp2(b_, kb):
+                    if ka != kb or ka not in ("bytes", "str"):
+                        return self.bad(e)
+                    t = "(list_eqb %s %s)" % (a, b_)
+                    return k("(negb %s)" % t if neg_ else t, "bool")
+                return self.expr(e.comparators[0], cmp2)
+            return self.expr(e.left, cmp_)
+        if isinstance(e, ast.UnaryOp) and isinstance(e.op, ast.Not):
+            return self.truth(e.operand, lambda t: k("(negb %s)" % t, "bool"))
+        return self.bad(e)
+
+    def bad(self, e):
+        raise U("plaintext guard: unrecognised expression `%s` at line %s" % (un(e)[:80], getattr(e, "lineno", "?")))
+
+    def truth(self, e, k):
+        def tr(t, kd):
+            if kd == "bool":
+                return k(t)
+            if kd in ("bytes", "str", "blist"):
+                return k("(negb (list_is_nil %s))" % t)
+            return self.bad(e)
+        return self.expr(e, tr)
+
+    def effects(self, e, k):
+        """evaluate, for their exceptions only, the six.ensure_str calls inside e (text formatting of a message)"""
+        calls = [n for n in ast.walk(e) if isinstance(n, ast.Call) and un(n.func) == "six.ensure_str"]
+        others = [n for n in ast.walk(e) if isinstance(n, (ast.Call, ast.Subscript)) and n not in calls
+                  and not any(n in list(ast.walk(c)) for c in calls)]
+        for o in others:
+            if isinstance(o, ast.Call) and isinstance(o.func, ast.Name) and o is e:
+                continue            # the exception constructor itself
+            raise U("plaintext guard: message expression may raise: `%s`" % un(o)[:80])
+        if not calls:
+            return k()
+        if len(calls) > 1:
+            raise U("plaintext guard: several conversions in one message")
+        return self.expr(calls[0], lambda t, kd: k())
+
+    def block(self, stmts, k):
+        if not stmts:
+            return k()
+        tail = self.final(self, stmts)
+        if tail is not None:
+            return tail
+        st, rest = stmts[0], stmts[1:]
+        nxt = lambda: self.block(rest, k)
+        if isinstance(st, ast.Expr) and isinstance(st.value, ast.Constant):
+            return nxt()
+        if isinstance(st, ast.Pass):
+            return nxt()
+        if isinstance(st, ast.Expr) and isinstance(st.value, ast.Call) and un(st.value.func) == "self.log":
+            inner = [n for n in ast.walk(st.value) if isinstance(n, (ast.Call, ast.Subscript)) and n is not st.value]
+            if inner:
+                raise U("plaintext guard: log call evaluates `%s`" % un(inner[0])[:60])
+            return nxt()
+        if isinstance(st, ast.Raise):
+            exc = Frag({}, {}).exc(st)
+            return self.effects(st.exc, lambda: 'Exc "%s"' % exc)
+        if isinstance(st, ast.If):
+            def branch(t):
+                saved, sn = dict(self.env), None
+                a = self.block(st.body, nxt)
+                self.env = dict(saved)
+                b_ = self.block(st.orelse, nxt)
+                self.env = saved
+                return "(if %s\n then %s\n else %s)" % (t, a, b_)
+            return self.truth(st.test, branch)
+        if isinstance(st, ast.Assign) and len(st.targets) == 1:
+            tg = st.targets[0]
+            if isinstance(tg, ast.Name):
+                def bind(t, kd):
+                    v = self.fresh(tg.id)
+                    self.env[tg.id] = (v, kd)
+                    return "(let %s := %s in\n %s)" % (v, t, nxt())
+                return self.expr(st.value, bind)
+            if isinstance(tg, ast.Tuple) and all(isinstance(x, ast.Name) for x in tg.elts) and len({x.id for x in tg.elts}) == len(tg.elts):
+                def unpack(t, kd):
+                    if kd != "blist":
+                        return self.bad(st.value)
+                    vs = [self.fresh(x.id) for x in tg.elts]
+                    for x, v in zip(tg.elts, vs):
+                        self.env[x.id] = (v, "bytes")
+                    return "(match %s with\n | [%s] => %s\n | _ => Exc \"ValueError\"\n end)" % (t, "; ".join(vs), nxt())
+                return self.expr(st.value, unpack)
+        raise U("plaintext guard: unrecognised statement `%s` at line %d" % (un(st)[:80], st.lineno))
+
+
+def lookup_cmp():
+    """Listener.lookupTubID's comparison (forms accepted: see gen_lookup) -> gallina test on (requested, my_id)"""
+    lk = P.find_def(P.load("pb.py"), "Listener.lookupTubID")
+    tests = [n for n in ast.walk(lk) if isinstance(n, ast.Compare) and un(n.left) == "tubID" and un(n.comparators[0]) == "self._tub.tubID"]
+    if len(tests) != 1 or len(tests[0].ops) != 1:
+        raise U("Listener.lookupTubID: comparison changed")
+    if isinstance(tests[0].ops[0], ast.Eq):
+        return "(list_eqb requested my_id)"
+    if isinstance(tests[0].ops[0], ast.NotEq):
+        return "(negb (list_eqb requested my_id))"
+    raise U("Listener.lookupTubID: comparison operator")
+
+
+def gen_plaintext(mod, out):
+    consts = P.module_consts(mod)
+    # ---- server
+    hp = P.find_def(mod, "Negotiation.handlePLAINTEXTServer")
+    if [a.arg for a in hp.args.args] != ["self", "header"]:
+        raise U("handlePLAINTEXTServer signature changed")
+    sr = P.find_def(mod, "Negotiation.sendRedirect")
+    srb = [x for x in sr.body if not (isinstance(x, ast.Expr) and isinstance(x.value, ast.Constant))]
+    if len(srb) != 1 or not isinstance(srb[0], ast.Raise):
+        raise U("sendRedirect is no longer a single raise (redirects are implemented: the model does not cover them)")
+    redirect_exc = Frag({}, {}).exc(srb[0])
+    sp = P.find_def(mod, "Negotiation.sendPlaintextServerAndStartENCRYPTED")
+    if not any(isinstance(x, ast.Expr) and un(x.value) == "self.startENCRYPTED()" for x in sp.body) \
+            or any(isinstance(n, (ast.Raise, ast.Assert)) for n in ast.walk(sp)) or phase_assigns(sp):
+        raise U("sendPlaintextServerAndStartENCRYPTED changed")
+
+    def final_server(bg, stmts):
+        st = stmts[0]
+        if not (isinstance(st, ast.Assign) and un(st) == "(tub, redirect) = self.listener.lookupTubID(targetTubID)"
+                or un(st) == "tub, redirect = self.listener.lookupTubID(targetTubID)"):
+            return None
+        if len(stmts) != 2 or not isinstance(stmts[1], ast.If) or un(stmts[1].test) != "tub":
+            raise U("handlePLAINTEXTServer: `if tub:` must directly follow the lookup and end the method")
+        d = stmts[1]
+        body = [un(x) for x in d.body]
+        for need in ("self.tub = tub", "self.myTubID = tub.tubID"):
+            if need not in body:
+                raise U("handlePLAINTEXTServer: `%s` missing from the `if tub:` branch" % need)
+        if body[-1] != "self.sendPlaintextServerAndStartENCRYPTED()" or any(isinstance(n, (ast.Raise, ast.Return)) for x in d.body for n in ast.walk(x)):
+            raise U("handlePLAINTEXTServer: the `if tub:` branch must end in sendPlaintextServerAndStartENCRYPTED()")
+        t = d.orelse
+        if len(t) != 1 or not isinstance(t[0], ast.If) or un(t[0].test) != "redirect" or [un(x) for x in t[0].body] != ["self.sendRedirect(redirect)"] \
+                or len(t[0].orelse) != 1 or not isinstance(t[0].orelse[0], ast.Raise):
+            raise U("handlePLAINTEXTServer: redirect / unknown-tubid tail changed")
+        unknown = Frag({}, {}).exc(t[0].orelse[0])
+        term, kd = bg.env["targetTubID"]
+        if kd != "str":
+            raise U("handlePLAINTEXTServer: targetTubID is not text")
+        return ("(let requested := %s in\n if %s then Ok tt else if redirect requested then Exc \"%s\" else Exc \"%s\")"
+                % (term, lookup_cmp(), redirect_exc, unknown))
+    bg = BG(consts, final_server)
+
+    def nofinal():
+        raise U("handlePLAINTEXTServer: fell off the end without the listener lookup")
+    srv = bg.block(hp.body, nofinal)
+    # ---- client
+    hc = P.find_def(mod, "Negotiation.handlePLAINTEXTClient")
+    if [a.arg for a in hc.args.args] != ["self", "header"]:
+        raise U("handlePLAINTEXTClient signature changed")
+
+    def final_client(bg, stmts):
+        if len(stmts) == 1 and un(stmts[0]) == "self.startENCRYPTED()":
+            return "Ok tt"
+        return None
+    bc = BG(consts, final_client)
+
+    def nofinal_c():
+        raise U("handlePLAINTEXTClient: does not end in self.startENCRYPTED()")
+    cli = bc.block(hc.body, nofinal_c)
+    se = P.find_def(mod, "Negotiation.startENCRYPTED")
+    seb = [un(x) for x in se.body if not (isinstance(x, ast.Expr) and (isinstance(x.value, ast.Constant) or un(x.value.func) == "self.log"))]
+    if seb != ["self.startTLS(self.tub.myCertificate)", "self.receive_phase = ENCRYPTED", "self.sendHello()"]:
+        raise U("startENCRYPTED changed: %r" % seb)
+    out.append("Section Plain.\nVariable decode : list Z -> option (list Z).   (* six.ensure_str on bytes; None = UnicodeDecodeError *)\n\n"
+               "(* Negotiation.handlePLAINTEXTServer, statement by statement; my_id = listener._tub.tubID, redirect = truthiness of\n"
+               "   listener._redirects.get(.); Ok = sendPlaintextServerAndStartENCRYPTED was reached *)\n"
+               "Definition plaintext_server_guard (my_id : list Z) (redirect : list Z -> bool) (header : list Z) : res unit :=\n %s.\n\n"
+               "(* Negotiation.handlePLAINTEXTClient, statement by statement; Ok = startENCRYPTED was reached *)\n"
+               "Definition plaintext_client_guard (header : list Z) : res unit :=\n %s.\nEnd Plain." % (srv, cli))
+
+
+HANDLERS = {"self.handlePLAINTEXTClient(header)": "HPlaintextClient", "self.handlePLAINTEXTServer(header)": "HPlaintextServer",
+            "self.handleENCRYPTED(header)": "HEncrypted", "self.handleDECIDING(header)": "HDeciding"}
+RPHASES = {"PLAINTEXT": "RPlaintext", "ENCRYPTED": "(RP PhEncrypted)", "DECIDING": "(RP PhDeciding)", "BANANA": "(RP PhBanana)",
+           "ABANDONED": "(RP PhAbandoned)"}
+
+
+def gen_dispatch(mod, out):
+    """the phase dispatch of dataReceived, translated: which handler gets a complete header block"""
+    dr = P.find_def(mod, "Negotiation.dataReceived")
+    tr = [s_ for s_ in dr.body if isinstance(s_, ast.Try)]
+    if len(tr) != 1:
+        raise U("dataReceived: expected one try block")
+    tb = tr[0].body
+    heads = [s_ for s_ in tb if isinstance(s_, ast.If) and un(s_.test).startswith("self.receive_phase == ")]
+    if len(heads) != 1:
+        raise U("dataReceived: expected one top-level phase dispatch in the try block")
+    i = tb.index(heads[0])
+    pre = [un(x) for x in tb[:i]]
+    if not pre or not __import__("re").fullmatch(r"\(?header, self\.buffer\)? = \(?self\.buffer\[:eoh\], self\.buffer\[eoh \+ \w+:\]\)?", pre[-1]):
+        raise U("dataReceived: the header is no longer cut off immediately before the dispatch")
+    post = tb[i + 1:]
+    if len(post) != 1 or not isinstance(post[0], ast.If) or un(post[0].test) != "self.buffer" or post[0].orelse \
+            or [un(x) for x in post[0].body] != ["self.dataReceived(b'')"]:
+        raise U("dataReceived: `if self.buffer: self.dataReceived(b'')` no longer directly follows the dispatch")
+    before = [un(x) for x in dr.body[:dr.body.index(tr[0])] if not (isinstance(x, ast.Expr) and isinstance(x.value, ast.Call) and un(x.value.func) == "self.log")]
+    if before[:2] != ["if self.receive_phase == ABANDONED:\n    return", "self.buffer += chunk"]:
+        raise U("dataReceived: expected `if self.receive_phase == ABANDONED: return` then `self.buffer += chunk`")
+
+    def tree(stmts):
+        if len(stmts) != 1:
+            raise U("dataReceived dispatch: a branch with %d statements" % len(stmts))
+        st = stmts[0]
+        if isinstance(st, ast.Expr) and un(st.value) in HANDLERS:
+            return HANDLERS[un(st.value)]
+        if isinstance(st, ast.Assert) and isinstance(st.test, ast.Constant) and not st.test.value:
+            return "HAssert"
+        if isinstance(st, ast.If):
+            t = un(st.test)
+            if t == "self.isClient":
+                c = "isClient"
+            elif t.startswith("self.receive_phase == ") and t[len("self.receive_phase == "):] in RPHASES:
+                c = "(rphase_eqb ph %s)" % RPHASES[t[len("self.receive_phase == "):]]
+            else:
+                raise U("dataReceived dispatch: test `%s`" % t)
+            if not st.orelse:
+                raise U("dataReceived dispatch: a test without else")
+            return "(if %s then %s else %s)" % (c, tree(st.body), tree(st.orelse))
+        raise U("dataReceived dispatch: unrecognised `%s`" % un(st)[:60])
+    out.append("Inductive rphase := RPlaintext | RP (p : phase).\n"
+               "Definition rphase_eqb (a b : rphase) : bool :=\n match a, b with RPlaintext, RPlaintext => true\n"
+               " | RP PhEncrypted, RP PhEncrypted | RP PhDeciding, RP PhDeciding | RP PhBanana, RP PhBanana | RP PhAbandoned, RP PhAbandoned => true\n"
+               " | _, _ => false end.\n"
+               "Inductive handler := HPlaintextClient | HPlaintextServer | HEncrypted | HDeciding | HAssert.\n"
+               "(* Negotiation.dataReceived: the handler a complete header block is given to *)\n"
+               "Definition dispatch (ph : rphase) (isClient : bool) : handler :=\n %s." % tree([heads[0]]))
+    # initial phase and the phase after startENCRYPTED
+    cls = P.find_class(mod, "Negotiation")
+    init = [un(s_.value) for s_ in cls.body if isinstance(s_, ast.Assign) and un(s_.targets[0]) == "receive_phase"]
+    if init != ["PLAINTEXT"]:
+        raise U("Negotiation.receive_phase no longer starts as PLAINTEXT: %r" % init)
+    out.append("Definition initial_phase : rphase := RPlaintext.\nDefinition phase_after_start_encrypted : phase := PhEncrypted.")
+
+
+def gen_trackers(out):
+    """Broker.getTrackerForYourReference: what a my-reference for an ALREADY KNOWN clid does to the tracker's URL.  The tub-id
+    check lives in RemoteReferenceTracker.__init__ only; any other store into a tracker's url has to be accounted for."""
+    bm = P.load("broker.py")
+    fn = P.find_def(bm, "Broker.getTrackerForYourReference")
+    if [a.arg for a in fn.args.args] != ["self", "clid", "interfaceName", "url"]:
+        raise U("Broker.getTrackerForYourReference signature changed")
+    body = [x for x in fn.body if not (isinstance(x, ast.Expr) and isinstance(x.value, ast.Constant)) and not isinstance(x, ast.Assert)
+            and not (isinstance(x, ast.If) and all(isinstance(y, ast.Assert) for y in x.body) and not x.orelse)]
+    if len(body) != 3 or un(body[0]) != "tracker = self.yourReferenceByCLID.get(clid)" or un(body[2]) != "return tracker" \
+            or not isinstance(body[1], ast.If) or un(body[1].test) != "not tracker":
+        raise U("Broker.getTrackerForYourReference: expected lookup by clid, `if not tracker:` creation, `return tracker`")
+    create = body[1]
+    csrc = [un(x) for x in create.body]
+    if "tracker = trackerclass(self, clid, url, interfaceName)" not in csrc or "self.yourReferenceByCLID[clid] = tracker" not in csrc:
+        raise U("Broker.getTrackerForYourReference: the creation branch changed")
+    for n in ast.walk(ast.Module(body=create.body, type_ignores=[])):
+        if isinstance(n, ast.Attribute) and n.attr == "url" and isinstance(n.ctx, ast.Store):
+            raise U("Broker.getTrackerForYourReference: the creation branch stores a url itself")
+    known = create.orelse
+    policy = "KeepUrl"
+    if known:
+        if len(known) != 1 or not isinstance(known[0], ast.If) or known[0].orelse:
+            raise U("Broker.getTrackerForYourReference: unrecognised known-clid branch")
+        stores = [un(x) for x in known[0].body if isinstance(x, ast.Assign) and any(isinstance(t, ast.Attribute) and t.attr == "url" for t in x.targets)]
+        if stores == ["tracker.url = url"]:
+            t = un(known[0].test)
+            policy = {"url and (not tracker.url)": "SetIfUnset", "url and not tracker.url": "SetIfUnset", "url": "SetAlways",
+                      "url is not None": "SetAlways"}.get(t)
+            if policy is None:
+                raise U("Broker.getTrackerForYourReference: known-clid branch stores the url under the test `%s`" % t)
+        elif stores:
+            raise U("Broker.getTrackerForYourReference: known-clid branch stores %r" % stores)
+    # nobody else writes a tracker's url
+    for cls in bm.body:
+        if isinstance(cls, ast.ClassDef):
+            for f in cls.body:
+                if isinstance(f, ast.FunctionDef) and not (cls.name == "Broker" and f.name == "getTrackerForYourReference"):
+                    for n in ast.walk(f):
+                        if isinstance(n, ast.Attribute) and n.attr == "url" and isinstance(n.ctx, ast.Store):
+                            raise U("broker.py: %s.%s stores a .url" % (cls.name, f.name))
+    rm = P.load("referenceable.py")
+    for cname in ("RemoteReferenceTracker", "RemoteMethodReferenceTracker"):
+        try:
+            cls = P.find_class(rm, cname)
+        except U:
+            continue
+        for f in cls.body:
+            if isinstance(f, ast.FunctionDef):
+                st = [n for n in ast.walk(f) if isinstance(n, ast.Attribute) and n.attr == "url" and isinstance(n.ctx, ast.Store)]
+                if st and not (cname == "RemoteReferenceTracker" and f.name == "__init__" and len(st) == 1):
+                    raise U("referenceable.py: %s.%s stores self.url" % (cname, f.name))
+    ru = un(P.find_def(rm, "ReferenceUnslicer.receiveClose"))
+    if "self.broker.getTrackerForYourReference(self.clid, self.interfaceName, self.url)" not in ru:
+        raise U("ReferenceUnslicer.receiveClose no longer asks getTrackerForYourReference(clid, interfaceName, url)")
+    out.append("(* Broker.getTrackerForYourReference: a my-reference for a clid that already has a tracker *)\n"
+               "Inductive known_clid_url := KeepUrl | SetIfUnset | SetAlways.\n"
+               "Definition known_clid_url_policy : known_clid_url := %s." % policy)
+
+
 def generate():
     mod = P.load("negotiate.py")
-    out = [P.PRELUDE % dict(src="negotiate.py, pb.py, referenceable.py, broker.py")]
+    out = [P.PRELUDE % dict(src="negotiate.py, pb.py, referenceable.py, broker.py") + "Require Import Verif.lib.NegBytes.\n"]
     out.append("Definition opt_is_none {A} (o : option A) : bool := match o with None => true | Some _ => false end.\n"
                "Definition opt_is_some {A} (o : option A) : bool := match o with None => false | Some _ => true end.\n"
                "(* == on (str | None) *)\n"
@@ -781,4 +1174,7 @@ def generate():
     gen_inbound(out)
     gen_tub(out)
     gen_getref(out)
+    gen_plaintext(mod, out)
+    gen_dispatch(mod, out)
+    gen_trackers(out)
     return {"IdentityGen.v": "\n\n".join(out) + "\n"}
